@@ -910,6 +910,99 @@ fn confusion_case(out: &mut Out, r: &mut Rng) {
     }
 }
 
+
+// ------------------------------------------------------------------ serde (human readable: serde_json)
+/// deserialize(JSON string of `s`) against from_str(`s`), for the three name kinds
+fn serde_text_case(out: &mut Out, s: &str) {
+    use domain::base::name::UncertainName;
+    let json = serde_json::to_string(s).unwrap();
+    let cw = chars_word(s);
+    // absolute
+    let c = format!("serde A {}", cw);
+    out.begin(&c);
+    let d = catch(|| serde_json::from_str::<Name<Vec<u8>>>(&json).map(|n| n.as_slice().to_vec()).map_err(|_| ()));
+    let f = Name::<Vec<u8>>::from_str(s).map(|n| n.as_slice().to_vec()).map_err(|_| ());
+    match &d {
+        Err(_) => { out.case(&c, "Panic", true, "serde_de"); out.check(false, "serde_panic", &c, ""); }
+        Ok(d) => {
+            out.case(&c, &match d { Ok(v) => format!("Ok:{}", hex(v)), Err(_) => "Err".into() }, s.len() > 1, "serde_de");
+            out.check(*d == f, "serde_name_differs_from_str", &c, &format!("deserialize {:?} from_str {:?}", d.as_ref().map(|v| hex(v)), f.as_ref().map(|v| hex(v))));
+            if let Ok(v) = d { oracle_abs(out, &c, v, false); }
+        }
+    }
+    // relative
+    let c = format!("serde R {}", cw);
+    let d = catch(|| serde_json::from_str::<RelativeName<Vec<u8>>>(&json).map(|n| n.as_slice().to_vec()).map_err(|_| ()));
+    let f = RelativeName::<Vec<u8>>::from_str(s).map(|n| n.as_slice().to_vec()).map_err(|_| ());
+    match &d {
+        Err(_) => { out.case(&c, "Panic", true, "serde_de"); out.check(false, "serde_panic", &c, ""); }
+        Ok(d) => {
+            out.case(&c, &match d { Ok(v) => format!("Ok:{}", hex(v)), Err(_) => "Err".into() }, s.len() > 1, "serde_de");
+            if *d != f {
+                let det = format!("deserialize {:?} from_str {:?}", d.as_ref().map(|v| hex(v)), f.as_ref().map(|v| hex(v)));
+                if d.is_ok() && f.is_err() && s.ends_with('.') {
+                    if HOLD_SERDE_REL { out.count("held:serde_relative_accepts_absolute"); } else { out.check(false, "serde_relative_accepts_absolute", &c, &det); }
+                } else { out.check(false, "serde_relname_differs_from_str", &c, &det); }
+            } else { out.check(true, "serde_relname_differs_from_str", &c, ""); }
+            if let Ok(v) = d { oracle_rel(out, &c, v, false); }
+        }
+    }
+    // uncertain
+    let c = format!("serde U {}", cw);
+    let show = |u: UncertainName<Vec<u8>>| match u { UncertainName::Absolute(n) => (true, n.as_slice().to_vec()), UncertainName::Relative(n) => (false, n.as_slice().to_vec()) };
+    let d = catch(|| serde_json::from_str::<UncertainName<Vec<u8>>>(&json).map(show).map_err(|_| ()));
+    let f = UncertainName::<Vec<u8>>::from_str(s).map(show).map_err(|_| ());
+    match &d {
+        Err(_) => { out.case(&c, "Panic", true, "serde_de"); out.check(false, "serde_panic", &c, ""); }
+        Ok(d) => {
+            out.case(&c, &match d { Ok((a, v)) => format!("Ok:{}:{}", if *a { "A" } else { "R" }, hex(v)), Err(_) => "Err".into() }, s.len() > 1, "serde_de");
+            out.check(*d == f, "serde_uncertain_differs_from_str", &c, "");
+            if let Ok((a, v)) = d { if *a { oracle_abs(out, &c, v, false); } else { oracle_rel(out, &c, v, false); } }
+        }
+    }
+}
+
+/// serialize -> JSON -> deserialize gives the same name; the JSON string is the Display text
+fn serde_roundtrip_case(out: &mut Out, w: &[u8]) {
+    use domain::base::name::UncertainName;
+    // w: wire of a valid absolute name
+    let n = Name::from_octets(w.to_vec()).unwrap();
+    let c = format!("ser A {}", hex(w));
+    out.begin(&c);
+    let json = serde_json::to_string(&n).unwrap();
+    let text: String = serde_json::from_str(&json).unwrap();
+    out.case(&c, &chars_word(&text), w.len() > 1, "serde_ser");
+    out.check(text == format!("{}", n), "serde_text_is_not_display", &c, &text);
+    let back = serde_json::from_str::<Name<Vec<u8>>>(&json);
+    out.check(back.as_ref().map(|m| m.as_slice() == w).unwrap_or(false), "serde_roundtrip", &c, &format!("{} -> {:?}", json, back.map(|m| hex(m.as_slice()))));
+    let rw = &w[..w.len() - 1];
+    let rn = RelativeName::from_octets(rw.to_vec()).unwrap();
+    let c = format!("ser R {}", hex(rw));
+    let json = serde_json::to_string(&rn).unwrap();
+    let text: String = serde_json::from_str(&json).unwrap();
+    out.case(&c, &chars_word(&text), rw.len() > 1, "serde_ser");
+    let back = serde_json::from_str::<RelativeName<Vec<u8>>>(&json);
+    out.check(back.as_ref().map(|m| m.as_slice() == rw).unwrap_or(false), "serde_roundtrip_relative", &c, &format!("{} -> {:?}", json, back.map(|m| hex(m.as_slice()))));
+    // uncertain, both variants: Display -> FromStr and serde
+    for (k, u, octs) in [("A", UncertainName::Absolute(n.clone()), w), ("R", UncertainName::Relative(rn.clone()), rw)] {
+        let c = format!("ser U{} {}", k, hex(octs));
+        let json = serde_json::to_string(&u).unwrap();
+        let text: String = serde_json::from_str(&json).unwrap();
+        out.case(&c, &chars_word(&text), octs.len() > 1, "serde_ser");
+        let same = |x: &UncertainName<Vec<u8>>| x.as_slice() == octs && x.is_absolute() == (k == "A");
+        let p = UncertainName::<Vec<u8>>::from_str(&format!("{}", u));
+        let b = serde_json::from_str::<UncertainName<Vec<u8>>>(&json);
+        let ok = p.as_ref().map(same).unwrap_or(false) && b.as_ref().map(same).unwrap_or(false);
+        if !ok && k == "A" && octs.len() == 1 {
+            if HOLD_UNC_ROOT { out.count("held:uncertain_root_display"); } else { out.check(false, "uncertain_root_display", &c, &format!("displayed as {:?}, parses to {:?}", text, p.map(|x| hex(x.as_slice())))); }
+        } else {
+            out.check(ok, "uncertain_display_parse_roundtrip", &c, &format!("displayed as {:?}", text));
+        }
+    }
+}
+const HOLD_SERDE_REL: bool = true;
+const HOLD_UNC_ROOT: bool = true;
+
 // ------------------------------------------------------------------ chain
 fn chain_case(out: &mut Out, r: &mut Rng) {
     let ll = match r.below(4) { 0 => r.range(0, 20) as usize, _ => r.range(236, 254) as usize };
@@ -1200,11 +1293,12 @@ fn main() {
     let l63 = format!("{}.{}", "a".repeat(63), "b".repeat(64));
     for t in [&long1, &long2, &long3, &long4, &l63] { idx += 1; if out.wants(idx) { text_case(&mut out, t); } }
     let n_txt = if a.thorough { 80_000 } else { 8_000 } * a.scale;
-    for _ in 0..n_txt { let t = gen_text(&mut r); idx += 1; if out.wants(idx) { text_case(&mut out, &t); } }
+    for _ in 0..n_txt { let t = gen_text(&mut r); idx += 1; if out.wants(idx) { text_case(&mut out, &t); if idx % 2 == 0 { serde_text_case(&mut out, &t); } } }
+    for t in fixed_txt { idx += 1; if out.wants(idx) { serde_text_case(&mut out, t); } }
     for _ in 0..n_txt / 4 {
         let total = match r.below(3) { 0 => r.range(0, 10) as usize, 1 => r.range(245, 254) as usize, _ => r.range(2, 100) as usize };
         let mut w = rel_wire(&mut r, if total == 1 { 2 } else { total }); w.push(0);
-        idx += 1; if out.wants(idx) { display_case(&mut out, &w); }
+        idx += 1; if out.wants(idx) { display_case(&mut out, &w); serde_roundtrip_case(&mut out, &w); }
     }
 
     // ---- slicing at label boundaries (T2 + oracle)
